@@ -19,15 +19,18 @@
 (* normalized_escaped_char_q, cleanup_escape_ws; css/string.rs Display,    *)
 (* unquote, quote, pref_dquotes, PartialEq; sass/string.rs evaluate):      *)
 (* the value is kept in a normalised *escaped* form and every operation    *)
-(* works on that form.  Named deviations, by the observable they corrupt:  *)
-(*   quoted_stored_escaped    string.length counts the escaped form and    *)
-(*                            == compares escaped forms                    *)
-(*   unquote_hex_as_decimal   CssString::unquote (string.unquote and       *)
-(*                            interpolation) misdecodes the escaped form   *)
-(*                            (hex digits read as decimal, ...)            *)
-(*   emit_escape_boundary     the emitted token denotes another string: an *)
-(*                            escape terminator / escaped space is dropped *)
-(*                            or a private-use escape is left unterminated *)
+(* works on that form.  Named deviations (RsObs(t, D) predicts the tree    *)
+(* with the deviations D present, so that a repaired defect can be         *)
+(* switched off on its own):                                               *)
+(*   quoted_stored_escaped    the base: values are kept escaped;           *)
+(*                            string.length counts the escaped form, ==    *)
+(*                            compares escaped forms, unquote/interpolation*)
+(*                            re-read and re-escape that form              *)
+(*   unquote_hex_as_decimal   CssString::unquote accumulates the digits of *)
+(*                            a hex escape in base 10                      *)
+(*   emit_escape_boundary     cleanup_escape_ws drops a space that is      *)
+(*                            content or a needed terminator; Display      *)
+(*                            leaves private-use escapes unterminated      *)
 (***************************************************************************)
 EXTENDS Integers, Sequences, FiniteSets, TLC
 
@@ -172,54 +175,62 @@ RsParts(t, i, parts) ==
            ELSE RsParts(t, i + 2, Append(parts, EscNorm(d)))
       ELSE RsParts(t, i + 2, Append(parts, EscNorm(d)))
 
-(* cleanup_escape_ws *)
-RsCleanup(parts) ==
+(* cleanup_escape_ws.  With emit_escape_boundary the trailing space of a  *)
+(* part is dropped although it is content (the part is an escaped space)  *)
+(* or although the next part starts with a space (which then becomes the  *)
+(* terminator); without it (the repaired rule) only a redundant           *)
+(* terminator of a hex escape is dropped.                                 *)
+RsCleanup(parts, D) ==
+  LET buggy == "emit_escape_boundary" \in D IN
   [k \in 1..Len(parts) |->
      LET s == parts[k] IN
-     IF Len(s) >= 2 /\ s[1] = BS /\ s[Len(s)] = SP
+     IF Len(s) >= 2 /\ s[1] = BS /\ s[Len(s)] = SP /\ (buggy \/ s # <<BS, SP>>)
      THEN IF k = Len(parts) THEN SubSeq(s, 1, Len(s) - 1)
           ELSE LET nx == parts[k + 1] IN
-               IF nx # <<>> /\ ~IsHex(nx[1]) /\ nx[1] # TAB THEN SubSeq(s, 1, Len(s) - 1) ELSE s
+               IF nx # <<>> /\ ~IsHex(nx[1]) /\ nx[1] # TAB /\ (buggy \/ nx[1] # SP) THEN SubSeq(s, 1, Len(s) - 1) ELSE s
      ELSE s]
 
 RECURSIVE Concat(_)
 Concat(parts) == IF parts = <<>> THEN <<>> ELSE Head(parts) \o Concat(Tail(parts))
 
 RsInModel(t) == LET ps == RsParts(t, 2, <<>>) IN \A k \in 1..Len(ps) : ps[k] # <<-1>>
-RsStored(t) == Concat(RsCleanup(RsParts(t, 2, <<>>)))
+RsStored(t, D) == Concat(RsCleanup(RsParts(t, 2, <<>>), D))
 
 PrefQuote(v) == IF Has(v, DQ) /\ ~Has(v, SQ) THEN SQ ELSE DQ
 
-RECURSIVE RsDisplayBody(_, _)
-RsDisplayBody(v, q) ==
+(* Display of a CssString.  With emit_escape_boundary a private-use code  *)
+(* point is written as a hex escape without terminator; without it (the   *)
+(* repaired rule) a space follows when the next character is a hex digit, *)
+(* a space or a tab.                                                      *)
+RECURSIVE RsDisplayBody(_, _, _)
+RsDisplayBody(v, q, D) ==
   IF v = <<>> THEN <<>>
-  ELSE LET c == Head(v) IN
-       (IF c = q THEN <<BS, c>> ELSE IF IsPrivate(c) THEN <<BS>> \o HexDigits(c) ELSE <<c>>) \o RsDisplayBody(Tail(v), q)
-RsDisplay(v, q) == <<q>> \o RsDisplayBody(v, q) \o <<q>>
+  ELSE LET c == Head(v)
+           term == IF "emit_escape_boundary" \notin D /\ Len(v) >= 2 /\ (IsHex(v[2]) \/ v[2] \in {SP, TAB}) THEN <<SP>> ELSE <<>> IN
+       (IF c = q THEN <<BS, c>> ELSE IF IsPrivate(c) THEN <<BS>> \o HexDigits(c) \o term ELSE <<c>>) \o RsDisplayBody(Tail(v), q, D)
+RsDisplay(v, q, D) == <<q>> \o RsDisplayBody(v, q, D) \o <<q>>
 (* a declaration value is written with every newline replaced by a space (css/rule.rs Property::write) *)
-RsEmit(v) == LET d == RsDisplay(v, PrefQuote(v)) IN [p \in 1..Len(d) |-> IF d[p] = LF THEN SP ELSE d[p]]
+RsEmit(v, D) == LET d == RsDisplay(v, PrefQuote(v), D) IN [p \in 1..Len(d) |-> IF d[p] = LF THEN SP ELSE d[p]]
 
-(* CssString::unquote of a quoted value *)
+(* CssString::unquote of a quoted value.  With unquote_hex_as_decimal the *)
+(* digits of a hex escape are accumulated in base 10.                     *)
 RECURSIVE DigitRun(_, _)
 DigitRun(v, i) == IF i > Len(v) \/ ~IsHex(v[i]) THEN 0 ELSE 1 + DigitRun(v, i + 1)
-RECURSIVE DecNum(_, _, _, _)
-DecNum(v, i, n, acc) == IF n = 0 THEN acc ELSE DecNum(v, i + 1, n - 1, acc * 10 + HexVal(v[i]))
-RECURSIVE RsUnq(_, _)
-RsUnq(v, i) ==
+RECURSIVE DigNum(_, _, _, _, _)
+DigNum(v, i, n, acc, base) == IF n = 0 THEN acc ELSE DigNum(v, i + 1, n - 1, acc * base + HexVal(v[i]), base)
+RECURSIVE RsUnq(_, _, _)
+RsUnq(v, i, base) ==
   IF i > Len(v) THEN <<>>
-  ELSE IF v[i] # BS THEN <<v[i]>> \o RsUnq(v, i + 1)
+  ELSE IF v[i] # BS THEN <<v[i]>> \o RsUnq(v, i + 1, base)
   ELSE LET n == DigitRun(v, i + 1) IN
        IF n = 0 THEN (IF i + 1 > Len(v) THEN <<>>
-                      ELSE (IF v[i + 1] = LF THEN <<BS, 97>> ELSE <<v[i + 1]>>) \o RsUnq(v, i + 2))
+                      ELSE (IF v[i + 1] = LF THEN <<BS, 97>> ELSE <<v[i + 1]>>) \o RsUnq(v, i + 2, base))
        ELSE IF n > 7 THEN <<-1>>
-       ELSE LET val == DecNum(v, i + 1, n, 0)
+       ELSE LET val == DigNum(v, i + 1, n, 0, base)
                 j == i + 1 + n
                 j2 == IF j <= Len(v) /\ v[j] = SP THEN j + 1 ELSE j IN
-            <<IF val <= 1114111 /\ ~(val >= 55296 /\ val <= 57343) THEN val ELSE REPL>> \o RsUnq(v, j2)
-RsUnquote(v) == RsUnq(v, 1)
-
-(* Display of an unquoted value: private-use code points become escape text *)
-RsDisplayUnq(v) == RsDisplayBody(v, -1)
+            <<IF val <= 1114111 /\ ~(val >= 55296 /\ val <= 57343) THEN val ELSE REPL>> \o RsUnq(v, j2, base)
+RsUnquote(v, D) == RsUnq(v, 1, IF "unquote_hex_as_decimal" \in D THEN 10 ELSE 16)
 
 (* SassString::evaluate: interpolation of a value into a quoted string *)
 RECURSIVE RsReesc(_, _, _)
@@ -231,39 +242,37 @@ RsReesc(v, i, carry) ==
        ELSE IF AlnumClass(c) = 1 \/ IsAsciiGraphic(c) \/ c \in {SP, TAB, REPL} THEN pre \o <<c>> \o RsReesc(v, i + 1, FALSE)
        ELSE IF ~IsControl(c) /\ c # LF /\ c # TAB THEN pre \o <<BS, c>> \o RsReesc(v, i + 1, FALSE)
        ELSE pre \o <<BS>> \o HexDigits(c) \o RsReesc(v, i + 1, TRUE)
-RsInterpStored(v) == RsReesc(RsDisplayUnq(RsUnquote(v)), 1, FALSE)
 
 RECURSIVE DoubleBs(_)
 DoubleBs(v) == IF v = <<>> THEN <<>> ELSE (IF Head(v) = BS THEN <<BS, BS>> ELSE <<Head(v)>>) \o DoubleBs(Tail(v))
-RsQuoteUnquoteStored(v) == DoubleBs(RsUnquote(v))
 
-(* everything the pinned tree is predicted to show for the literal t.      *)
-(* known = 0 when the model does not cover the literal.                    *)
+(* Everything the tree is predicted to show for the literal t when the    *)
+(* deviations D are present.  The model as a whole is the deviation       *)
+(* quoted_stored_escaped (values kept in escaped form); the other two     *)
+(* switch individual defects on top of it.  known = 0: not covered.       *)
 NoTok == <<-1>>
-RsObs(t) ==
-  IF ~RsInModel(t) THEN [known |-> 0, emit |-> NoTok, len |-> -1, interp |-> NoTok, qu |-> NoTok, eq |-> -1]
-  ELSE LET v  == RsStored(t)
-           u  == RsUnquote(v)
-           iv == RsInterpStored(v)
-           qv == RsQuoteUnquoteStored(v)
+NoObs == [known |-> 0, emit |-> NoTok, len |-> -1, interp |-> NoTok, qu |-> NoTok, eq |-> -1]
+RsObs(t, D) ==
+  IF "quoted_stored_escaped" \notin D \/ ~RsInModel(t) THEN NoObs
+  ELSE LET v  == RsStored(t, D)
+           u  == RsUnquote(v, D)
+           iv == RsReesc(RsDisplayBody(u, -1, D), 1, FALSE)      \* Display of the unquoted value, re-escaped
+           qv == DoubleBs(u)                                      \* string.quote of the unquoted value
            classKnown == \A p \in 1..Len(u) : u[p] >= 0 /\ AlnumClass(u[p]) >= 0 IN
        [known  |-> 1,
-        emit   |-> RsEmit(v),
+        emit   |-> RsEmit(v, D),
         len    |-> Len(v),
-        interp |-> IF classKnown THEN RsEmit(iv) ELSE NoTok,
-        qu     |-> IF Has(u, -1) THEN NoTok ELSE RsEmit(qv),
+        interp |-> IF classKnown THEN RsEmit(iv, D) ELSE NoTok,
+        qu     |-> IF Has(u, -1) THEN NoTok ELSE RsEmit(qv, D),
         eq     |-> IF Has(u, -1) THEN -1
                    ELSE IF PrefQuote(v) = PrefQuote(qv) THEN (IF v = qv THEN 1 ELSE 0)
-                   ELSE (IF RsUnquote(v) = RsUnquote(qv) THEN 1 ELSE 0)]
+                   ELSE (IF RsUnquote(v, D) = RsUnquote(qv, D) THEN 1 ELSE 0)]
 
 ---------------------------------------------------------------------------
 (* The judgement of one observation obs = [emit, len, interp, qu, eq] of   *)
 (* the literal t whose content (by CssDecode) is c.  Each observable is    *)
-(* either what the property demands, or what the deviation model predicts *)
-(* (then the named deviation must be listed as open).                      *)
-FieldDevs == [emit |-> "emit_escape_boundary", len |-> "quoted_stored_escaped", eq |-> "quoted_stored_escaped",
-              interp |-> "unquote_hex_as_decimal", qu |-> "unquote_hex_as_decimal"]
-
+(* either what the property demands, or exactly what the deviation model  *)
+(* predicts with the open deviations D switched on.                        *)
 IdealField(f, obs, c) ==
   CASE f = "emit"   -> Denotes(obs.emit, c)
     [] f = "len"    -> obs.len = Len(c)
@@ -274,12 +283,21 @@ IdealField(f, obs, c) ==
 Fields == {"emit", "len", "interp", "qu", "eq"}
 BadFields(obs, c) == {f \in Fields : ~IdealField(f, obs, c)}
 
+FieldOf(f, o) ==
+  CASE f = "emit" -> o.emit [] f = "interp" -> o.interp [] f = "qu" -> o.qu
+    [] f = "len" -> <<o.len>> [] f = "eq" -> <<o.eq>>
+
 (* f is explained by the deviation model *)
 KnownField(f, obs, rs) ==
   /\ rs.known = 1
-  /\ CASE f = "emit"   -> rs.emit # NoTok /\ obs.emit = rs.emit
-       [] f = "len"    -> obs.len = rs.len
-       [] f = "interp" -> rs.interp # NoTok /\ obs.interp = rs.interp
-       [] f = "qu"     -> rs.qu # NoTok /\ obs.qu = rs.qu
-       [] f = "eq"     -> rs.eq # -1 /\ obs.eq = rs.eq
+  /\ FieldOf(f, rs) \notin {NoTok, <<-1>>}
+  /\ FieldOf(f, obs) = FieldOf(f, rs)
+
+(* the deviations responsible for the predicted value of f: the switches  *)
+(* whose removal changes the prediction, else the base deviation          *)
+Switches == {"unquote_hex_as_decimal", "emit_escape_boundary"}
+Responsible(f, t, D) ==
+  LET rs == RsObs(t, D)
+      sw == {d \in Switches \cap D : FieldOf(f, RsObs(t, D \ {d})) # FieldOf(f, rs)} IN
+  IF sw = {} THEN {"quoted_stored_escaped"} ELSE sw
 =============================================================================
